@@ -1,0 +1,25 @@
+//go:build verif
+
+package query
+
+// Verification hooks (C05): thin wrappers around the unexported rewrite steps. Not part of the normal build.
+
+// VerifEvalConstants is evalConstants.
+func VerifEvalConstants(q Q) Q { return evalConstants(q) }
+
+// VerifFlatten is one flatten step.
+func VerifFlatten(q Q) (Q, bool) { return flatten(q) }
+
+// VerifStripCaseScopes is the parser's stripCaseScopes.
+func VerifStripCaseScopes(q Q) Q { return stripCaseScopes(q) }
+
+// VerifCaseScope wraps child in the parser's unexported caseScopeQ.
+func VerifCaseScope(child Q) Q { return &caseScopeQ{Child: child} }
+
+// VerifCaseScopeChild returns the child if q is a caseScopeQ.
+func VerifCaseScopeChild(q Q) (Q, bool) {
+	if s, ok := q.(*caseScopeQ); ok {
+		return s.Child, true
+	}
+	return nil, false
+}
